@@ -89,10 +89,13 @@ pub fn model_predict(model: &mut Model, bytes: &[u8], cfg: &Cfg, auth: bool) -> 
         body.to_vec()
     };
     let (delivered, end_err) = if cfg.layers & L_COMP != 0 {
-        // brotli is a parameter of the model: its answers on exactly these bytes come from the brotli
-        // crate called directly (stream table), the layer logic is the model's
+        // the model decodes the brotli streams itself (MlaModel/Brotli); the table computed with the
+        // brotli crate called directly is a cross-check of that decoder on exactly these bytes
         let table = ref_stream_table(&delivered);
         let m = model.call(json!({"cmd":"comp.failsafe","stream":hx(&delivered),"streams":table}));
+        if m["table_mismatch"].as_u64().unwrap_or(0) != 0 {
+            return Some(Err(format!("model-internal: the model's RFC 7932 decoder and the brotli crate disagree on {} stream prefix(es)", m["table_mismatch"])));
+        }
         (unhx(&m["delivered"]), m["err"] == true)
     } else { (delivered, false) };
     let m = model.call(json!({"cmd":"repair.run","stream":hx(&delivered),"endErr":end_err}));
